@@ -87,6 +87,29 @@ pub(crate) fn gen_items(g: &mut Gen, forms: &std::collections::HashMap<String, V
             }
         }
     }
+    // a function: main ... call f ... jmp END ; f: ... ret   (ret pops what the call pushed: C04 "live slots survive calls",
+    // C18 levels; other branches may still jump into the body - every step is judged in the state it really runs in)
+    if items.len() >= 5 && g.rng.gen_bool(0.35) {
+        let k = g.rng.gen_range(2..items.len() - 1);
+        if let (Ok(jmp), Ok(call), Ok(ret)) = (
+            Instruction::with_branch(Code::Jmp_rel32_64, 0),
+            Instruction::with_branch(Code::Call_rel32_64, 0),
+            Ok::<Instruction, iced_x86::IcedError>(Instruction::with(Code::Retnq)),
+        ) {
+            items[k].label = 2;
+            items.push(Item { instr: ret, branch_to: None, label: 0, back_to: 0 });
+            items.insert(k, Item { instr: jmp, branch_to: Some(usize::MAX), label: 0, back_to: usize::MAX });
+            let c = g.rng.gen_range(0..k);
+            items.insert(c, Item { instr: call, branch_to: Some(usize::MAX), label: 0, back_to: 2 });
+            if g.rng.gen_bool(0.3) {
+                // a second call site
+                let c2 = g.rng.gen_range(0..=k);
+                if let Ok(call2) = Instruction::with_branch(Code::Call_rel32_64, 0) {
+                    items.insert(c2, Item { instr: call2, branch_to: Some(usize::MAX), label: 0, back_to: 2 });
+                }
+            }
+        }
+    }
     // a counted loop around a few items: mov ecx, k ; head: ... ; dec ecx ; jne head  (the body may clobber ECX: runs are capped)
     if items.len() >= 4 && g.rng.gen_bool(0.4) {
         let i = g.rng.gen_range(0..items.len() - 2);
@@ -97,16 +120,20 @@ pub(crate) fn gen_items(g: &mut Gen, forms: &std::collections::HashMap<String, V
             Instruction::with1(Code::Dec_rm32, Register::ECX),
             Instruction::with_branch(Code::Jne_rel8_64, 0),
         ) {
+          if items[i].label == 0 {
             items[i].label = 1;
             items.insert(j + 1, Item { instr: jne, branch_to: Some(usize::MAX), label: 0, back_to: 1 });
             items.insert(j + 1, Item { instr: dec, branch_to: None, label: 0, back_to: 0 });
             items.insert(i, Item { instr: mv, branch_to: None, label: 0, back_to: 0 });
+          }
         }
     }
     // resolve branch targets: a later item or the program end (loop back-edges: the labelled head)
     let total = items.len();
     for k in 0..total {
-        if items[k].back_to != 0 {
+        if items[k].back_to == usize::MAX {
+            items[k].branch_to = Some(total); // jump to the end of the program
+        } else if items[k].back_to != 0 {
             let lab = items[k].back_to;
             items[k].branch_to = items.iter().position(|x| x.label == lab);
         } else if items[k].branch_to.is_some() {
